@@ -30,6 +30,7 @@ class Clause:
     known: list = field(default_factory=list)    # finding ids whose classes are excluded by `restrict`
     restrict: object = None      # (ctx) -> z3 Bool : extra pre-condition of the restricted form
     props: list = field(default_factory=list)
+    any_outcome: bool = False    # also evaluated when the function raises an allowed exception (ctx.kind == 'raise')
 
 
 @dataclass
@@ -206,7 +207,21 @@ class EngineB:
                     if not any(issubclass(value.cls, e) for e in case.raises):
                         model = self._model(I, [], inputs)
                         failures[raises_clause.name].append((f"{value.cls.__name__} escapes: {I.py_str(value)}", model, path))
-                    continue     # post clauses speak about normal returns
+                    if any(issubclass(value.cls, e) for e in case.raises):
+                        for cl in clause_list:
+                            if not cl.any_outcome:
+                                continue
+                            f = cl.fn(ctx)
+                            if f is True:
+                                continue
+                            neg = z3.BoolVal(True) if f is False else z3.Not(f)
+                            r, s = I._check([neg])
+                            if r == z3.sat:
+                                failures[cl.name].append((f"clause false on a path raising {value.cls.__name__}; model "
+                                                          f"{self._model_from(s.model(), inputs, Z)}", None, path))
+                            elif r == z3.unknown:
+                                unknowns[cl.name].append("solver returned unknown on a raising path")
+                    continue     # other post clauses speak about normal returns
                 for cl in clause_list:
                     try:
                         f = cl.fn(ctx)
